@@ -5,7 +5,7 @@
     the checksum is the specification's; a stored lead byte is never 0xE5.  Whole-history well-formedness is judged
     by the independent fsck on the real images. *)
 From Coq Require Import ZArith List Bool Sorted.
-From PyFatV Require Import Base.Bytes Base.PyEnv Gen.Pure Model.Codec Model.Dir Proofs.Names Proofs.FatCodec.
+From PyFatV Require Import Base.Bytes Base.PyEnv Gen.Pure Model.Codec Model.Dir Proofs.Names Proofs.FatCodec Proofs.DirCodec.
 Import ListNotations.
 Open Scope Z_scope.
 
@@ -30,4 +30,28 @@ Theorem C05_lead_byte : forall name, hd 0 (sfn_lead_encode name) <> 229.
 Proof. exact sfn_lead_never_e5. Qed.
 Example C05_example : lfn_units (make_lfn [104;105;32;116;104;101;114;101;46;116;120;116;49;50] [65;66;67;32;32;32;32;32;84;88;84]) = [104;105;32;116;104;101;114;101;46;116;120;116;49;50]
   /\ length (make_lfn [104;105;32;116;104;101;114;101;46;116;120;116;49;50] [65;66;67;32;32;32;32;32;84;88;84]) = 2%nat.
+Proof. vm_compute. split; reflexivity. Qed.
+
+(** The directory reader inverts the directory writer: for ANY list of well-formed entries (short entries with
+    in-range fields, a lead byte that is neither the end mark nor the deleted mark, not attribute 0x0F; long-name
+    sets in ascending ordinal order 1..n|0x40 carrying the entry's checksum), scanning the serialised directory
+    followed by zero fill returns exactly those entries (long-name slots in disk order) and reports the end mark;
+    nothing is lost, merged or invented.  The long-name sets the model builds always qualify. *)
+Theorem C05_reader_inverts_writer : forall es k f, Forall entry_ok es -> (0 < k)%nat ->
+  scan_slots (nslots_dir es + S f) (ser_dir es ++ repeat 0 (32 * k)) [] [] = Ok (map canon es, [], true).
+Proof. exact read_what_was_written. Qed.
+Print Assumptions C05_reader_inverts_writer.
+Theorem C05_reader_inverts_writer_full : forall es f, Forall entry_ok es ->
+  scan_slots (nslots_dir es + f) (ser_dir es) [] [] = Ok (map canon es, [], false).
+Proof. exact read_what_was_written_full. Qed.
+Print Assumptions C05_reader_inverts_writer_full.
+Theorem C05_built_sets_qualify : forall u name, Forall unit_ok u -> 1 <= lenZ u <= 255 -> lfnset_ok (make_lfn u name) name.
+Proof. exact make_lfn_ok. Qed.
+Print Assumptions C05_built_sets_qualify.
+Definition ex_entry : dirent :=
+  mkDirent [65;66;67;32;32;32;32;32;84;88;84] 32 0 0 100 200 300 0 400 500 7 1234
+           (Some (make_lfn [104;105;32;116;104;101;114;101;46;116;120;116;49;50] [65;66;67;32;32;32;32;32;84;88;84])).
+Example C05_reader_example :
+  scan_slots 10 (ser_dir [ex_entry; set_lfn ex_entry None] ++ repeat 0 32) [] [] = Ok (map canon [ex_entry; set_lfn ex_entry None], [], true)
+  /\ length (ser_dir [ex_entry; set_lfn ex_entry None]) = 128%nat.
 Proof. vm_compute. split; reflexivity. Qed.
